@@ -168,6 +168,14 @@ pub fn run(ctx: &Ctx, model: &mut Model, rep: &mut Report) {
             None => rep.resolved_findings.push(json!({"id": f.id, "what": f.what})),
         }
     }
+    for f in known::load(ctx, "C02").into_iter().filter(|f| f.status == "fixed") {
+        let (k, t) = (f.witness["key"].as_str().unwrap_or("a").to_string(), f.witness["text"].as_str().unwrap_or("").to_string());
+        rep.evaluations += 1;
+        rep.count("corpus_fixed_witnesses");
+        if let Some(what) = check_doc(&k, &t) {
+            rep.fail(json!({"kind": "fixpoint", "key": k, "text": t, "what": format!("regression of repaired defect {}: {}", f.id, what)}));
+        }
+    }
     let keys: Vec<String> = hist::KEY_POOL.iter().map(|s| s.to_string()).collect();
     let n = if ctx.thorough { 12000 } else { 800 };
     for i in 0..n {
